@@ -3,6 +3,7 @@ package props
 import (
 	"fmt"
 	"go/ast"
+	"go/constant"
 	"go/token"
 	"sort"
 	"strings"
@@ -638,44 +639,67 @@ func c05Retarget(r *core.Run, p *core.Program) {
 	}
 	mts, _ := an.ConstInt64(pk, "MedianTimeSpan")
 	r.Check(mts == 11, rule, "median-span", "-", "11 blocks", fmt.Sprintf("MedianTimeSpan is %d", mts))
-	sorted := len(an.CallsTo(mtp, false, "sort.Ints")) == 1
-	okIdx := false
+	// the window pmedian[begin:end] is sorted and the element returned is the upper middle one,
+	// begin + (end-begin)/2, for every window size 1..11 (evaluated over all sizes: an index that is
+	// equal only for odd sizes - the lower middle - differs near genesis, where the window is short)
+	var win *ssa.Slice
+	for _, c := range an.CallsTo(mtp, false, "sort.Ints") {
+		if sl, ok := c.Common().Args[0].(*ssa.Slice); ok {
+			win = sl
+		}
+	}
+	var idx ssa.Value
+	nret := 0
 	an.Instrs(mtp, func(i ssa.Instruction) {
-		if ret, ok := i.(*ssa.Return); ok {
-			// pmedian[pbegin + (pend-pbegin)/2]
-			a := an.Atoms(ret.Results[0])
-			if an.HasAll(a, "elem", "const:2") {
-				seen := map[ssa.Value]bool{}
-				var walk func(v ssa.Value, d int)
-				walk = func(v ssa.Value, d int) {
-					if v == nil || seen[v] || d > 10 {
-						return
-					}
-					seen[v] = true
-					if bo, ok := v.(*ssa.BinOp); ok && bo.Op == token.QUO {
-						if k, ok := an.ConstOf(bo.Y); ok && k.Int64() == 2 {
-							if sub, ok := bo.X.(*ssa.BinOp); ok && sub.Op == token.SUB {
-								okIdx = true
-							}
-						}
-					}
-					switch x := v.(type) {
-					case *ssa.BinOp:
-						walk(x.X, d+1)
-						walk(x.Y, d+1)
-					case *ssa.UnOp:
-						walk(x.X, d+1)
-					case *ssa.IndexAddr:
-						walk(x.Index, d+1)
-					case *ssa.Convert:
-						walk(x.X, d+1)
-					}
+		if ret, ok := i.(*ssa.Return); ok && len(ret.Results) == 1 {
+			nret++
+			v := c17StripConv(ret.Results[0])
+			if ld, ok := v.(*ssa.UnOp); ok && ld.Op == token.MUL {
+				if ia, ok := ld.X.(*ssa.IndexAddr); ok && win != nil && ia.X == win.X {
+					idx = ia.Index
 				}
-				walk(ret.Results[0], 0)
 			}
 		}
 	})
-	r.Check(sorted && okIdx, rule, "median-time-past", p.Pos(mtp.Pos()), "sorted window, element begin + (end-begin)/2", "median-time-past is not the middle element of the sorted window")
+	detail := "median-time-past is not an element of the sorted window"
+	okIdx := false
+	if win != nil && idx != nil && nret == 1 && mts > 0 {
+		okIdx = true
+		cases := 0
+		for begin := int64(0); begin < mts && okIdx; begin++ {
+			for end := begin + 1; end <= mts && okIdx; end++ {
+				env := an.PEnv{}
+				fix := func(v ssa.Value, k int64) bool {
+					if v == nil {
+						return false
+					}
+					if c, isC := an.ConstOf(v); isC {
+						return c.Int64() == k
+					}
+					env[v] = constant.MakeInt64(k)
+					return true
+				}
+				if !fix(win.Low, begin) || !fix(win.High, end) {
+					continue // the bound is a constant different from this case
+				}
+				cases++
+				got, ok := an.PEval(idx, env)
+				want := begin + (end-begin)/2
+				if !ok {
+					okIdx = false
+					detail = "the index of the returned element (" + clip(an.Expr(idx), 80) + ") is not a function of the window's bounds"
+				} else if g, _ := constant.Int64Val(got); g != want {
+					okIdx = false
+					detail = fmt.Sprintf("for the window [%d:%d] (%d blocks) the element returned is index %d, the median is index %d", begin, end, end-begin, g, want)
+				}
+			}
+		}
+		if okIdx && cases < int(mts) {
+			okIdx = false
+			detail = fmt.Sprintf("only %d window sizes could be evaluated", cases)
+		}
+	}
+	r.Check(okIdx, rule, "median-time-past", p.Pos(mtp.Pos()), "sorted window, element begin + (end-begin)/2 for every window of 1..11 blocks", detail)
 }
 
 func c05Consts(r *core.Run, p *core.Program) {
